@@ -13,6 +13,12 @@ import (
 // groups of 1..4 hex digits (either letter case), most significant group first; ISD-AS =
 // ISD "-" AS; SVC = DS | CS | Wildcard, optionally followed by _A (anycast) or _M (multicast).
 
+// c46Len: the string length, an enumerated bound minlen..maxlen (one fork per length).
+func c46Len() int {
+	lo, hi := verif.Param("minlen"), verif.Param("maxlen")
+	return lo + verif.Choose("len", hi-lo+1)
+}
+
 // c46Dec: value of a decimal numeral; ok=false when empty or a non-digit occurs. Exact for
 // len(b) <= 18 (no wrap-around in 64 bits).
 func c46Dec(b []byte) (v uint64, ok bool) {
@@ -94,7 +100,7 @@ func c46RefAS(b []byte, colon []bool) (val uint64, ok bool) {
 
 // VerifC46ParseISD: ParseISD on an arbitrary string of the given length.
 func VerifC46ParseISD() {
-	n := verif.Param("len")
+	n := c46Len()
 	b := verif.NondetBytes("s", n)
 	isd, err := ParseISD(string(b))
 	verif.Observe("parse", err == nil, uint16(isd))
@@ -115,7 +121,7 @@ func VerifC46ParseISD() {
 // restricts the strings to those without ':' (used to reach the 10-digit decimal boundary without
 // enumerating 2^10 colon layouts).
 func VerifC46ParseAS() {
-	n := verif.Param("len")
+	n := c46Len()
 	b := verif.NondetBytes("s", n)
 	if verif.Param("nocolon") == 1 {
 		for _, c := range b {
@@ -141,7 +147,7 @@ func VerifC46ParseAS() {
 
 // VerifC46ParseIA: ParseIA on an arbitrary string of the given length.
 func VerifC46ParseIA() {
-	n := verif.Param("len")
+	n := c46Len()
 	b := verif.NondetBytes("s", n)
 	dash := c46Layout(b, '-')
 	colon := c46Layout(b, ':')
@@ -187,7 +193,7 @@ var c46SVCNames = []struct {
 
 // VerifC46ParseSVC: ParseSVC on an arbitrary string of the given length.
 func VerifC46ParseSVC() {
-	n := verif.Param("len")
+	n := c46Len()
 	b := verif.NondetBytes("s", n)
 	svc, err := ParseSVC(string(b))
 	verif.Observe("parse", err == nil, uint16(svc))
